@@ -16,6 +16,11 @@ type H struct {
 	params map[string]int
 }
 
+// Cleanup registers f to run after the execution is over and every task has unwound (outside the
+// scheduler: f must not touch instrumented synchronisation). For process resources such as
+// database handles, which an aborted execution would otherwise leak.
+func (h *H) Cleanup(f func()) { h.e.cleanups = append(h.e.cleanups, f) }
+
 func (h *H) Param(name string, def int) int {
 	if v, ok := h.params[name]; ok {
 		return v
